@@ -6,6 +6,7 @@
      90  a 32-byte vector load is not inside the sequence slice   (UB: over-read)
      91  a 32-byte vector store is not inside the matrix          (UB: over-write)
      92  assert_eq!(matrix.rows(), src_stride)
+      7  slice index s[..] out of range in the scalar tail loop
    Err 1: the call is not expressible in Rust (AVX2 / dispatch striping only exist
    for C = 32 columns). *)
 From Coq Require Import List Arith Bool Lia.
@@ -50,11 +51,38 @@ Section Avx2.
       end
     else Ok (i, m).
 
-  (* while i < matrix.rows() { for j in 0..32 { if j*R+i < len { matrix[i][j] = s[j*R+i] } } i += 1 } *)
-  Definition tail_rows (s : list nat) (R i : nat) (m : matrix) : res matrix :=
-    for_res (seq i (length m - i)) (fun r m1 =>
-      for_res (seq 0 32) (fun j m2 =>
-        if j * R + r <? length s then m_set 32 m2 r j (nth (j * R + r) s (wild K)) else Ok m2) m1) m.
+  (* The scalar loop over the remaining rows; condition, column count, guard, the three
+     index expressions and the step are translated from avx2.rs (GenStripeNet.v):
+       while <tail_cond> { for j in 0..<tail_cols> { if <tail_guard> {
+           matrix[<tail_row>][<tail_col>] = s[<tail_src>] } } i += <tail_i_step> }
+     s[..] out of range is a slice-index panic (site 7). *)
+  Definition tail_body (s : list nat) (R i j : nat) (m2 : matrix) : res matrix :=
+    let L := length s in
+    let rows := length m2 in
+    if tail_guard i j R L rows then
+      let src := tail_src i j R L rows in
+      if src <? L then m_set 32 m2 (tail_row i j R L rows) (tail_col i j R L rows) (nth src s (wild K))
+      else Panic 7
+    else Ok m2.
+
+  Fixpoint tail_loop (fuel : nat) (s : list nat) (R i : nat) (m : matrix) : res matrix :=
+    if tail_cond i 0 R (length s) (length m) then
+      match fuel with
+      | O => OutOfFuel
+      | S f => rbind (for_res (seq 0 tail_cols) (tail_body s R i) m) (fun m' =>
+                 tail_loop f s R (i + tail_i_step) m')
+      end
+    else Ok m.
+
+  (* for k in <fill_lo>..<fill_hi> { matrix[<fill_row>][<fill_col>] = default }  (translated;
+     `% src_stride` / `/ src_stride` panic when src_stride = 0) *)
+  Definition fill_avx2 (s : list nat) (R : nat) (m : matrix) : res matrix :=
+    let L := length s in
+    let lo := fill_lo 0 R L (length m) 32 in
+    let hi := fill_hi 0 R L (length m) 32 in
+    for_res (seq lo (hi - lo)) (fun k m' =>
+      if R =? 0 then Panic 3
+      else m_set 32 m' (fill_row k R L (length m') 32) (fill_col k R L (length m') 32) (wild K)) m.
 
   Definition stripe_into_avx2 (s : list nat) (old : sseq) : res sseq :=
     let len := length s in
@@ -65,8 +93,8 @@ Section Avx2.
     else if negb (length m =? R) then Panic 92
     else
       rbind (block_loop R s R 0 0 0 m) (fun im =>
-      rbind (tail_rows s R (fst im) (snd im)) (fun m2 =>
-      rbind (fill_tail K 32 R len m2) (fun m3 =>
+      rbind (tail_loop (length m) s R (fst im) (snd im)) (fun m2 =>
+      rbind (fill_avx2 s R m2) (fun m3 =>
       s_new 32 m3 len))).
 End Avx2.
 
